@@ -95,7 +95,11 @@ def ones(*shape, **kwargs):
     :return: a TT :class:`Tensor` of rank 1
     """
 
-    return _create(torch.ones, *shape, ranks_tt=1, **kwargs)
+    t = _create(torch.ones, *shape, ranks_tt=1, **kwargs)
+    for n in range(len(t.Us)):
+        if t.Us[n] is not None:  # A factor of ones with k columns would multiply every entry by k
+            t.Us[n] = t.Us[n] / t.Us[n].shape[-1]
+    return t
 
 
 def ones_like(t, **kwargs):
